@@ -70,7 +70,8 @@ impl QueuingMetricSinkBuilder {
 
         spawn_worker_in_thread(worker.clone());
 
-        QueuingMetricSink { worker, sink }
+        let stopper = Arc::new(Stopper { worker: worker.clone() });
+        QueuingMetricSink { worker, sink, stopper }
     }
 
     /// Set error handler called when the wrapped sink fails to emit a metric.
@@ -145,6 +146,9 @@ impl QueuingMetricSinkBuilder {
 pub struct QueuingMetricSink {
     worker: Arc<Worker>,
     sink: Arc<dyn MetricSink + Send + Sync + RefUnwindSafe>,
+    // Shared by all clones of this sink: stops the worker when the last one is dropped.
+    #[allow(dead_code)]
+    stopper: Arc<Stopper>,
 }
 
 impl fmt::Debug for QueuingMetricSink {
@@ -279,11 +283,17 @@ impl MetricSink for QueuingMetricSink {
     }
 }
 
-impl Drop for QueuingMetricSink {
+/// Guard shared by every clone of a `QueuingMetricSink`.
+struct Stopper {
+    worker: Arc<Worker>,
+}
+
+impl Drop for Stopper {
     /// Send the worker a signal to stop processing metrics.
     ///
     /// Note that this destructor only sends the worker thread a signal to
-    /// stop, it doesn't wait for it to stop.
+    /// stop, it doesn't wait for it to stop. It runs once, when the last
+    /// clone of the sink is dropped.
     fn drop(&mut self) {
         self.worker.stop();
     }
